@@ -153,6 +153,10 @@ CHECKS["C31"] = dict(parts=[part("client-auth-after-connect", "cl", "TestC31Clie
                             part("cli-refuses-plaintext", "cli", "TestC31CLI", 1, 1, qshards=12, tshards=12, random=False, needs_tools=True)])
 CHECKS["C30"] = dict(parts=[part("predefined-config", "cli", "TestC30", 60, 2000, qshards=12, tshards=16, needs_tools=True)])
 META.update({
+    "C30": dict(
+        text="Exploration: generated configurations (a YAML file with 0-3 client blocks from {'*', c1, c2} over IDs 1-4 and names that need YAML quoting, and/or 0-4 --predefined-topic options in both forms which overlap the file and each other, given by flags or by environment variables) are handed to the three real binaries built from the working tree. bisquitt is probed over loopback UDP with a PUBLISH on every predefined ID (topic seen by a harness broker, or session dropped); bisquitt-pub and bisquitt-sub run against a scripted UDP gateway and the way they address each name (predefined ID vs REGISTER/SUBSCRIBE by name) is read off the wire. Oracle: a model mapping = the file's, overridden entry by entry by the options in order, two-field options under '*'; every tool must agree with it and none may refuse a valid configuration.",
+        note="Process-level check on real sockets and real time; a liveness timeout is inconclusive (the case is skipped and counted; more than half skipped = exit 2), never a violation. Binaries are built with go1.26.8 through the harness module, without the verif tag having any effect on them (no hooks in cmd/). An ID chosen by a tool passes if the model maps it back to the requested name for this client, so C05's shadowing question is not double-reported.",
+        technique="PBT over configurations (rapid) with a merged-mapping reference model; differential across the three binaries via wire probes"),
     "C31": dict(
         text="Exploration: (b) the real client library with/without a configured user, will on/off, a gateway that ignores 0..RetryCount+1 CONNECTs, repeated Connect calls and further API traffic: no AUTH datagram ever without a user; with a user every CONNECT datagram (first and retried) is immediately followed by an AUTH carrying exactly the configured credentials. (a) the three command-line tools over the exhaustive flag/environment matrix are checked by the part cli-refuses-plaintext.",
         note=_CL_NOTE, technique="PBT over client configurations and connect-retry schedules; exhaustive enumeration of the CLI flag matrix"),
